@@ -24,6 +24,9 @@ type Ctx struct {
 
 	cg       *callgraph.Graph
 	guards   map[*ssa.Function]*guardInfo
+	expanded map[*ssa.BasicBlock]map[fact]bool // facts plus what known-true helper calls imply (helperfacts.go)
+	helperS  map[string][]fact                 // summaries of helpers
+	noExpand int                               // >0 while a summary is being computed
 	reach    map[*ssa.Function]bool // reachable from exported API
 	declOf   map[*types.Func]*ast.FuncDecl
 	astFiles map[*ast.File]*packages.Package
